@@ -138,7 +138,7 @@ def show(v):
     return v
 
 
-ALPHA8 = ["a", "b", " ", "!", '"', "\\", "\x01", "é"]
+ALPHA8 = ["a", "A", " ", "!", '"', "\\", "\x01", "é"]   # code points below, between and above the two escaped characters
 KEYS72 = ALPHA8 + [x + y for x in ALPHA8 for y in ALPHA8]
 
 RICH = (list("abzAZ09 !#[]{}:,/~\x7f") + ['"', "\\"] + [chr(i) for i in range(0, 32)]
@@ -189,8 +189,7 @@ def gen(chk):
     else:
         sets += [(k,) for k in KEYS72]
         sets += list(itertools.combinations(ALPHA8, 2)) + list(itertools.combinations(ALPHA8, 3))
-        pairs = list(itertools.combinations(KEYS72, 2))
-        sets += rng.sample(pairs, 800)
+        sets += list(itertools.combinations(KEYS72, 2))          # every pair of the 72 keys
         sets += [tuple(rng.sample(KEYS72, 3)) for _ in range(1500)]
     for ks in sets:
         if len({NFC(k) for k in ks}) != len(ks):
@@ -220,7 +219,7 @@ def gen(chk):
 
 def run(chk):
     chk.rule = ("values: (1) objects over key sets of size <=3 from the 72 keys of length <=2 over "
-                "{a,b,space,!,\",\\,U+0001,e-acute} in several/all insertion orders (thorough: all sets, all "
+                "{a,A,space,!,\",\\,U+0001,e-acute} (all pairs) in several/all insertion orders (thorough: all sets, all "
                 "orders), (2) random values to depth 4 over ASCII incl. all control characters, multi-byte and "
                 "combining characters, integer extremes, floats, (3) corpus; non-trivial = object with >=2 "
                 "members, or string/key with an escaped, control or non-ASCII character, or a float; distinct by "
